@@ -74,7 +74,7 @@ def run_variant(v) -> dict:
                 ctx = Ctx(v['prop'], 'quick', level=getattr(mod, 'LEVEL', 'other'),
                           project=Project(repo=tmp))
                 mod.check(ctx)
-            viol = [o for o in ctx.obligations if o['status'] in ('violation', 'known')]
+            viol = [o for o in ctx.obligations if o['status'] == 'violation']   # known findings are not new reports
             err = None
             if ctx.floor_failures and not viol:
                 err = '%s: %s' % ctx.floor_failures[0]
